@@ -19,6 +19,36 @@ type Guard struct {
 	Signaled   bool           // the child was ended by a signal
 	Signal     syscall.Signal // which
 	CPU        time.Duration  // user+system time of the child
+	// Blocked: the child was alive for IdleWindow of wall time and consumed less than IdleCPU of processor time
+	// meanwhile — it is not slow (a runnable process on a loaded machine still gets its share), it is waiting for
+	// something that does not come (every goroutine parked on a lock nobody will release). Killed with SIGQUIT.
+	Blocked bool
+}
+
+// IdleWindow / IdleCPU: see Guard.Blocked. Only used when RunGuardedIdle is asked to watch for it.
+const (
+	IdleWindow = 120 * time.Second
+	IdleCPU    = time.Second
+)
+
+// cpuOf reads user+system time of a live process (all threads) from /proc/<pid>/stat.
+func cpuOf(pid int) (time.Duration, bool) {
+	b, err := os.ReadFile("/proc/" + strconv.Itoa(pid) + "/stat")
+	if err != nil {
+		return 0, false
+	}
+	s := string(b)
+	i := strings.LastIndexByte(s, ')') // the command name may contain spaces
+	if i < 0 {
+		return 0, false
+	}
+	f := strings.Fields(s[i+1:])
+	if len(f) < 13 {
+		return 0, false
+	}
+	ut, _ := strconv.ParseInt(f[11], 10, 64)
+	st, _ := strconv.ParseInt(f[12], 10, 64)
+	return time.Duration(ut+st) * (time.Second / 100), true // USER_HZ is 100 on Linux
 }
 
 // ExternalKill: the child was killed by SIGKILL that neither our memory cap nor our watchdog sent and that the CPU
@@ -50,6 +80,15 @@ func rssMB(pid int) int {
 // (wall, 0 = none). cmd must not have been started. If cmd execs (bash -c "ulimit ...; exec prog"), the pid stays
 // the same, so the cap applies to prog.
 func RunGuarded(cmd *exec.Cmd, memMB int, wall time.Duration) (Guard, error) {
+	return runGuarded(cmd, memMB, wall, false)
+}
+
+// RunGuardedIdle is RunGuarded that also ends a child which is blocked (Guard.Blocked).
+func RunGuardedIdle(cmd *exec.Cmd, memMB int, wall time.Duration) (Guard, error) {
+	return runGuarded(cmd, memMB, wall, true)
+}
+
+func runGuarded(cmd *exec.Cmd, memMB int, wall time.Duration, watchIdle bool) (Guard, error) {
 	var g Guard
 	if memMB <= 0 {
 		memMB = DefaultMemMB
@@ -60,7 +99,7 @@ func RunGuarded(cmd *exec.Cmd, memMB int, wall time.Duration) (Guard, error) {
 	pid := cmd.Process.Pid
 	done := make(chan struct{})
 	fin := make(chan struct{})
-	var memKilled, wallKilled atomic.Bool
+	var memKilled, wallKilled, blocked atomic.Bool
 	var peak atomic.Int64
 	go func() {
 		defer close(fin)
@@ -68,6 +107,7 @@ func RunGuarded(cmd *exec.Cmd, memMB int, wall time.Duration) (Guard, error) {
 		defer t.Stop()
 		start := time.Now()
 		var quitAt time.Time
+		winStart, winCPU := start, time.Duration(0)
 		for {
 			select {
 			case <-done:
@@ -81,7 +121,20 @@ func RunGuarded(cmd *exec.Cmd, memMB int, wall time.Duration) (Guard, error) {
 					memKilled.Store(true)
 					cmd.Process.Signal(syscall.SIGKILL)
 				}
-				if wall > 0 && time.Since(start) > wall {
+				if watchIdle && !blocked.Load() && !wallKilled.Load() && time.Since(winStart) >= IdleWindow {
+					if cpu, ok := cpuOf(pid); ok {
+						if cpu-winCPU < IdleCPU {
+							blocked.Store(true)
+							quitAt = time.Now()
+							cmd.Process.Signal(syscall.SIGQUIT)
+						}
+						winStart, winCPU = time.Now(), cpu
+					}
+				}
+				if blocked.Load() && time.Since(quitAt) > 10*time.Second {
+					cmd.Process.Signal(syscall.SIGKILL)
+				}
+				if wall > 0 && time.Since(start) > wall && !blocked.Load() {
 					if !wallKilled.Load() {
 						wallKilled.Store(true)
 						quitAt = time.Now()
@@ -96,7 +149,7 @@ func RunGuarded(cmd *exec.Cmd, memMB int, wall time.Duration) (Guard, error) {
 	err := cmd.Wait()
 	close(done)
 	<-fin
-	g.MemKilled, g.WallKilled, g.PeakMB = memKilled.Load(), wallKilled.Load(), int(peak.Load())
+	g.MemKilled, g.WallKilled, g.PeakMB, g.Blocked = memKilled.Load(), wallKilled.Load(), int(peak.Load()), blocked.Load()
 	if ps := cmd.ProcessState; ps != nil {
 		g.CPU = ps.UserTime() + ps.SystemTime()
 		if ws, ok := ps.Sys().(syscall.WaitStatus); ok && ws.Signaled() {
